@@ -6,10 +6,11 @@ props = [json.loads(l) for l in open(os.path.join(V, "properties.jsonl"))]
 ids = [p["id"] for p in props]
 na_path = os.path.join(V, "engine", "not_applicable.json")
 na = json.load(open(na_path)) if os.path.exists(na_path) else {}
+ready = set(json.load(open(os.path.join(V, "engine", "ready.json"))))
 checks = []; notapp = []
 for pid in ids:
     f = os.path.join(V, "props", pid + ".py")
-    if os.path.exists(f) and pid not in na:
+    if os.path.exists(f) and pid not in na and pid in ready:
         spec = importlib.util.spec_from_file_location("p", f); m = importlib.util.module_from_spec(spec); spec.loader.exec_module(m)
         c = dict(property_id=pid, quick_cmd="./check %s --tier quick" % pid, evidence_file="evidence/%s.json" % pid,
                  replay_cmd_template="./check %s --replay {path}" % pid, engine="cbmc-driver",
